@@ -259,6 +259,7 @@ impl<'de, R: Reader<'de>> Parser<R> {
             old(self).utf8_clean() ==> res.is_ok() && !res.unwrap() && final(self).utf8_clean(),
             !old(self).utf8_clean() && !allowed ==> res.is_err(),
             !old(self).utf8_clean() && allowed ==> res.is_ok() && res.unwrap(),
+            res.is_err() ==> res.unwrap_err().has_pos,
 //@end
 
 //@extract file=src/parser.rs impl="Parser<R>" fn=parse_str
@@ -297,7 +298,7 @@ pub fn lossy_string(b: &[u8]) -> (r: String) { unimplemented!() }
 #[verifier::external_body]
 pub fn string_into_bytes(s: String) -> (r: Vec<u8>) { unimplemented!() }
 #[verifier::external_body]
-pub fn invalid_utf8_err(json: &[u8], index: usize) -> (e: Error) { unimplemented!() }
+pub fn invalid_utf8_err(json: &[u8], index: usize) -> (e: Error) ensures e.has_pos, { unimplemented!() }
 
 } // verus!
 fn main() {}
